@@ -426,6 +426,14 @@ const char *SolverAppOptionParser::Parse(char **&argv) {
   return stub;
 }
 
+#ifdef AMPL_MP_VERIF
+// Verification hook: a test harness may raise a signal at a named point.
+extern "C" void mp_verif_signal_point(const char *name);
+# define MP_VERIF_SIGNAL_POINT(name) mp_verif_signal_point(name)
+#else
+# define MP_VERIF_SIGNAL_POINT(name) ((void)0)
+#endif
+
 mp::internal::atomic<const char*> SignalHandler::signal_message_ptr_;
 mp::internal::atomic<unsigned> SignalHandler::signal_message_size_;
 mp::internal::atomic<InterruptHandler> SignalHandler::handler_;
@@ -501,21 +509,32 @@ SignalHandler::SignalHandler(BasicSolver &s)
   solver_.set_interrupter(this);
   signal_message_ptr_ = message_.c_str();
   signal_message_size_ = static_cast<unsigned>(message_.size());
+  MP_VERIF_SIGNAL_POINT("ctor:0");
   std::signal(SIGINT, HandleSigInt);
+  MP_VERIF_SIGNAL_POINT("ctor:1");
   std::signal(SIGTERM, HandleSigInt);
+  MP_VERIF_SIGNAL_POINT("ctor:2");
   stop_ = 0;
+  MP_VERIF_SIGNAL_POINT("ctor:3");
 }
 
 SignalHandler::~SignalHandler() {
   solver_.set_interrupter(0);
+  MP_VERIF_SIGNAL_POINT("dtor:0");
   stop_ = 1;
+  MP_VERIF_SIGNAL_POINT("dtor:1");
   handler_ = 0;
+  MP_VERIF_SIGNAL_POINT("dtor:2");
   signal_message_size_ = 0;
+  MP_VERIF_SIGNAL_POINT("dtor:3");
 }
 
 void SignalHandler::SetHandler(InterruptHandler handler, void *data) {
+  MP_VERIF_SIGNAL_POINT("set:0");
   handler_ = handler;
+  MP_VERIF_SIGNAL_POINT("set:1");
   data_ = data;
+  MP_VERIF_SIGNAL_POINT("set:2");
 }
 
 void SignalHandler::HandleSigInt(int sig) {
